@@ -243,6 +243,18 @@ def run(job):
             if len(terms) < (36 if quick else 220) and (len(items) <= 2 or
                                                         total % 11 == 0):
                 terms.append((items, t, want))
+        def canon(r, want):
+            """the result of an operation behaves like any other term of its
+            value: normal form of the right shape, identical to the normal
+            form first seen for that value, equal and hash-equal to it"""
+            nr = r.normalized()
+            if den_items(nr._items, den_elem) != want or \
+                    not shape_ok(nr._items, den_elem) or not no_float(nr._items):
+                return False
+            key = (want[0], tuple(sorted(want[1].items(), key=repr)))
+            first = by_den.setdefault(key, nr)
+            return same_items(first._items, nr._items) and r == first and \
+                first == r and hash(r) == hash(first)
         # ---- pairs: equality, group operations ---------------------------
         for (i1, t1, d1), (i2, t2, d2) in itertools.product(terms, terms):
             inp = (i1, i2)
@@ -255,12 +267,13 @@ def run(job):
             p = t1 * t2
             job.case(f"{uname}/product", inp,
                      den_items(p._items, den_elem) == mul_den(d1, d2) and
-                     no_float(p._items) and p == t2 * t1, p._items, "")
+                     no_float(p._items) and p == t2 * t1 and
+                     canon(p, mul_den(d1, d2)), p._items, "")
             q = t1 / t2
             job.case(f"{uname}/quotient", inp,
                      den_items(q._items, den_elem) == mul_den(d1, d2, -1) and
-                     no_float(q._items) and q == t1 * t2.reciprocal(),
-                     q._items, "")
+                     no_float(q._items) and q == t1 * t2.reciprocal() and
+                     canon(q, mul_den(d1, d2, -1)), q._items, "")
         for i1, t1, d1 in terms:
             r = t1.reciprocal()
             job.case(f"{uname}/reciprocal", i1,
@@ -292,7 +305,10 @@ def run(job):
                 pw = t1 ** n
                 job.case(f"{uname}/power", (i1, n),
                          den_items(pw._items, den_elem) == pow_den(d1, n) and
-                         no_float(pw._items), pw._items, "")
+                         no_float(pw._items) and canon(pw, pow_den(d1, n)) and
+                         (n != 0 or pw == TermCls(())) and
+                         (n != 2 or pw == t1 * t1) and
+                         (n != -1 or pw == t1.reciprocal()), pw._items, "")
             for x in NUMS:
                 for name, fn, dd in (
                         ("mul", lambda: t1 * x, mul_den(d1, (O.F(x), {}))),
@@ -302,8 +318,8 @@ def run(job):
                     rr = fn()
                     job.case(f"{uname}/number-{name}", (i1, x),
                              den_items(rr._items, den_elem) == dd and
-                             no_float(rr._items) and
-                             no_float(rr.normalized()._items), rr._items, dd)
+                             no_float(rr._items) and canon(rr, dd),
+                             rr._items, dd)
     job.bound = (f"3 universes (real units incl. convertible and nested ones, "
                  f"classes with definitions incl. two of one name, synthetic "
                  f"elements): all terms of 1 item and {'up to 4000 sampled' if quick else 'all'} terms of 2 items per universe over elements x "
